@@ -14,6 +14,7 @@ inductive Val where
   | idx (l : List Int)                         -- index array (list / vector / std::array of integers)
   | nd (shape : List Nat) (data : List Int)    -- ndarray or view: shape + row-major buffer
   | nothing                                    -- empty nmtools_maybe
+  | lit                                        -- the bare literal `meta::Nothing` (type nothing_t), NOT a maybe
   | just (v : Val)                             -- non-empty nmtools_maybe
   | left (v : Val)                             -- nmtools_either, left alternative
   | right (v : Val)                            -- nmtools_either, right alternative
@@ -60,13 +61,29 @@ def Res.and : Res → Res → Res
 
 /-- same "concept" (both num, both index array, both ndarray, both none) as `same_concept` demands
     before an either alternative is compared with a plain operand -/
-def sameConcept : Val → Val → Bool
+def sameConcept0 : Val → Val → Bool
   | .num _, .num _ => true
   | .idx _, .idx _ => true
   | .nd _ _, .nd _ _ => true
   | _, _ => false
 
+/-- `unwrap_t`: the concept of an either alternative is taken after stripping optionals (maybe<num> counts as num);
+    an EMPTY optional alternative then compares false in detail::isequal anyway -/
+def unwrapJ : Val → Val
+  | .just v => unwrapJ v
+  | v => v
+
+def sameConcept (a b : Val) : Bool := sameConcept0 (unwrapJ a) (unwrapJ b)
+
 def isequal : Val → Val → Res
+  -- public dispatcher: "comparison of maybe type with nothing type is allowed" (`!static_cast<bool>(maybe)`), both orders;
+  -- the literal against anything that is not a maybe (another literal included) yields the fail type ISEQUAL_UNSUPPORTED
+  | .lit, .nothing => .val true
+  | .nothing, .lit => .val true
+  | .lit, .just _ => .val false
+  | .just _, .lit => .val false
+  | .lit, _ => .notAccepted
+  | _, .lit => .notAccepted
   | .nothing, .nothing => .val true
   | .nothing, .just _ => .val false
   | .just _, .nothing => .val false
@@ -99,6 +116,7 @@ def WF : Val → Prop
   | .left v => WF v
   | .right v => WF v
   | .pair a b => WF a ∧ WF b
+  | .lit => False                      -- the bare literal is not a value (it only occurs as a whole operand, see `isequal_lit_*`)
   | _ => True
 
 /-- reference meaning on arrays: same dimension, same shape, all corresponding elements equal -/
@@ -123,7 +141,86 @@ def iscloseNd (eps : Int) (s1 : Shape) (d1 : List Int) (s2 : Shape) (d2 : List I
       .val ((List.zipWith (closeElem eps) ra rb).all id)
     else .oob
 
+/-- `isclose(a,b)` without the third argument uses `eps = 1e-6`; on the integer-valued data of the model
+    `|x-y| < 1e-6 ↔ x = y ↔ |x-y| < 1` -/
+def defaultEps : Int := 1
+
+/-- detail::isclose over the operand grammar (utility/isclose.hpp:147-309) and the tuple loop of the public dispatcher.
+    MIRRORS A DEFECT: the four `either vs plain` calls are written `isclose(*ptr,u)` — the caller's `eps` is dropped and the
+    default tolerance is used (finding `isclose.either-plain-eps`). -/
+def isclose (eps : Int) : Val → Val → Res
+  | .lit, _ => .notAccepted            -- isclose has no Nothing-literal branch (fail type / does not compile)
+  | _, .lit => .notAccepted
+  | .nothing, .nothing => .val true
+  | .nothing, .just _ => .val false
+  | .just _, .nothing => .val false
+  | .just a, .just b => isclose eps a b
+  | .nothing, _ => .val false
+  | _, .nothing => .val false
+  | .just a, b => isclose eps a b
+  | a, .just b => isclose eps a b
+  | .left a, .left b => isclose eps a b
+  | .right a, .right b => isclose eps a b
+  | .left _, .right _ => .val false
+  | .right _, .left _ => .val false
+  | .left a, b => if sameConcept a b then isclose defaultEps a b else .val false      -- eps dropped
+  | .right a, b => if sameConcept a b then isclose defaultEps a b else .val false     -- eps dropped
+  | a, .left b => if sameConcept a b then isclose defaultEps a b else .val false      -- eps dropped
+  | a, .right b => if sameConcept a b then isclose defaultEps a b else .val false     -- eps dropped
+  | .num a, .num b => .val (decide ((a - b).natAbs < eps))
+  | .nd s1 d1, .nd s2 d2 => iscloseNd eps s1 d1 s2 d2
+  | .unit, .unit => .val true
+  | .pair a as, .pair b bs => (isclose eps a b).and (isclose eps as bs)
+  | _, _ => .notAccepted
+
 def specCloseNd (eps : Int) (s1 : Shape) (d1 : List Int) (s2 : Shape) (d2 : List Int) : Bool :=
   decide (s1 = s2) && (List.zipWith (fun x y => decide ((x - y).natAbs < eps)) d1 d2).all id
+
+/-- REFERENCE for isclose over the operand grammar: the same alternative-by-alternative matching with the caller's
+    tolerance used for EVERY element comparison (what "all element differences are below eps" demands) -/
+def iscloseRef (eps : Int) : Val → Val → Res
+  | .lit, _ => .notAccepted
+  | _, .lit => .notAccepted
+  | .nothing, .nothing => .val true
+  | .nothing, .just _ => .val false
+  | .just _, .nothing => .val false
+  | .just a, .just b => iscloseRef eps a b
+  | .nothing, _ => .val false
+  | _, .nothing => .val false
+  | .just a, b => iscloseRef eps a b
+  | a, .just b => iscloseRef eps a b
+  | .left a, .left b => iscloseRef eps a b
+  | .right a, .right b => iscloseRef eps a b
+  | .left _, .right _ => .val false
+  | .right _, .left _ => .val false
+  | .left a, b => if sameConcept a b then iscloseRef eps a b else .val false
+  | .right a, b => if sameConcept a b then iscloseRef eps a b else .val false
+  | a, .left b => if sameConcept a b then iscloseRef eps a b else .val false
+  | a, .right b => if sameConcept a b then iscloseRef eps a b else .val false
+  | .num a, .num b => .val (decide ((a - b).natAbs < eps))
+  | .nd s1 d1, .nd s2 d2 => .val (specCloseNd eps s1 d1 s2 d2)
+  | .unit, .unit => .val true
+  | .pair a as, .pair b bs => (iscloseRef eps a b).and (iscloseRef eps as bs)
+  | _, _ => .notAccepted
+
+/-- does the comparison of `a` with `b` pass through an `either vs plain` branch? (decidable input class of the finding) -/
+def mixedEither : Val → Val → Bool
+  | .lit, _ => false
+  | _, .lit => false
+  | .nothing, _ => false
+  | _, .nothing => false
+  | .just a, .just b => mixedEither a b
+  | .just a, b => mixedEither a b
+  | a, .just b => mixedEither a b
+  | .left a, .left b => mixedEither a b
+  | .right a, .right b => mixedEither a b
+  | .left _, .right _ => false
+  | .right _, .left _ => false
+  | .left _, _ => true
+  | .right _, _ => true
+  | _, .left _ => true
+  | _, .right _ => true
+  | .pair a as, .pair b bs => mixedEither a b || mixedEither as bs
+  | _, _ => false
 
 end NmVerif.IsEqual
